@@ -4,6 +4,10 @@
 set -u
 PATCH="$1"; shift
 cd /verif
+mkdir -p target
+exec 8>target/.repo.lock
+flock -x 8
+export VERIF_REPO_LOCK_HELD=1
 if ! git -C /repo diff --quiet; then echo "RUN_ON_SEED: /repo has uncommitted changes"; exit 2; fi
 git -C /repo apply "$PATCH" || { echo "RUN_ON_SEED: patch does not apply to /repo"; exit 2; }
 for id in "$@"; do
